@@ -134,3 +134,20 @@ CONFIG["C01"] = {
     "assumptions": COMMON_ASSUMPTIONS + ["jet bit codes are taken from the jet tables (C14)", "Bitcoin jets excluded (roots unimplemented by design)"],
     "counter_floors": {"quick": {"witness-values": 20000, "has-hidden": 500, "has-disconnect": 2000, "sharing-merged-nodes": 10000}, "thorough": {"witness-values": 500000}},
 }
+
+CONFIG["C02"] = {
+    "budget_s": {"quick": 120, "thorough": 2400},
+    "hang_is_violation": True,
+    "floor": {"quick": 20000, "thorough": 1000000},
+    "rule": ("a case is a (program bytes, witness bytes) pair offered to RedeemNode::decode, CommitNode::decode and ConstructNode::decode with the Core or the Elements jet family: "
+             "(a) random strings (length skewed to 1..64 bytes, two thirds with a small node count spliced in as length prefix), (b) 1-2 byte-level mutations (bit flip, truncate, extend, swap, "
+             "overwrite, insert, delete) of the library's own encodings of generated programs, (c) encodings hand-assembled with the harness's bit-level encoder to violate exactly one rule: "
+             "unused node, swapped sibling order, unshared duplicate expression, repeated hidden node, hidden node outside case, both children hidden, trailing zero byte, non-zero padding bit, "
+             "word length 33, natural >= 2^31, back-reference past the start, witness stream one byte long/short, (d) deep well-typed chains / pair towers of depth 10^2..10^6. "
+             "Oracle: outcome is Ok or Err (panics, aborts and hangs are captured); peak live heap (counting global allocator) <= 64 MiB + 8 KiB per input byte; time <= 2 s + 50 us * len^2 (re-run before believed); "
+             "error Display < 1 MiB; an accepted input must be readable by the reference parser and re-encode byte-for-byte (commit time: when no disconnect carries a branch); every class-(c) input must be rejected. "
+             "Non-trivial: every case that reached a decoder; distinct: distinct byte strings."),
+    "assumptions": COMMON_ASSUMPTIONS + ["the 64 MiB constant covers the documented 32 MiB initial reservation of Value::from_padded_bits", "strings up to a few hundred bytes plus depth-stress encodings up to ~2 MiB; Bitcoin family excluded (panics by design)", "stack size pinned to 8 MiB"],
+    "counter_floors": {"quick": {"accept.Redeem": 300, "reject.sharing-not-maximal": 100, "reject.not-canonical-order": 100, "reject.illegal-padding": 100, "reject.trailing-bytes": 100},
+                       "thorough": {"accept.Redeem": 10000}},
+}
